@@ -208,6 +208,23 @@ type Receipt struct {
 	Events []lime.NotificationEvent `json:"events,omitempty"`
 }
 
+// UnmarshalJSON validates the events, since a null item is decoded as an empty event
+// which cannot be encoded again.
+func (r *Receipt) UnmarshalJSON(b []byte) error {
+	type receipt Receipt
+	var raw receipt
+	if err := json.Unmarshal(b, &raw); err != nil {
+		return err
+	}
+	for _, e := range raw.Events {
+		if err := e.Validate(); err != nil {
+			return err
+		}
+	}
+	*r = Receipt(raw)
+	return nil
+}
+
 func MediaTypeReceipt() lime.MediaType {
 	return lime.MediaType{
 		Type:    "application",
